@@ -5,6 +5,7 @@ package main
 // canary buffers the golib functions write into.
 
 import (
+	"bytes"
 	"crypto/cipher"
 	"fmt"
 
@@ -168,6 +169,50 @@ func clone(b []byte) []byte {
 }
 
 var keySizes = []int{16, 24, 32}
+
+// keyClasses: what the bytes of a key look like. A key is an arbitrary byte
+// string of a legal size; keys that happen to read as text, as hex digits or as
+// base64 (passwords, hex-encoded secrets used verbatim) are legal keys too and
+// must be used as they are.
+var keyClasses = []string{"random", "random", "random", "hex-lower", "hex-upper", "hex-mixed", "digits", "base64", "printable", "zero", "ones", "repeat"}
+
+func genKeyClass(rng *ev.Rand, klen int, class string) []byte {
+	var alpha string
+	switch class {
+	case "hex-lower":
+		alpha = "0123456789abcdef"
+	case "hex-upper":
+		alpha = "0123456789ABCDEF"
+	case "hex-mixed":
+		alpha = "0123456789abcdefABCDEF"
+	case "digits":
+		alpha = "0123456789"
+	case "base64":
+		alpha = "ABCDEFGHIJKLMNOPQRSTUVWXYZabcdefghijklmnopqrstuvwxyz0123456789+/"
+	case "printable":
+		alpha = " !#$%&()*+,-./0123456789:;<=>?@ABCXYZ[]^_abcxyz{|}~"
+	case "zero":
+		return make([]byte, klen)
+	case "ones":
+		return bytes.Repeat([]byte{0xff}, klen)
+	case "repeat":
+		return bytes.Repeat([]byte{byte(rng.Intn(256))}, klen)
+	default:
+		return rng.Bytes(klen)
+	}
+	k := make([]byte, klen)
+	for i := range k {
+		k[i] = alpha[rng.Intn(len(alpha))]
+	}
+	return k
+}
+
+// genKey draws a key of klen bytes of a random content class and counts the class.
+func genKey(c *ev.Case, rng *ev.Rand, klen int) []byte {
+	class := keyClasses[rng.Intn(len(keyClasses))]
+	c.Add("key_class/"+class, 1)
+	return genKeyClass(rng, klen, class)
+}
 
 // genText produces plaintext-like content of length n; the structured kinds
 // imitate padding so that a sloppy un-padding check is confused by the data.
